@@ -160,7 +160,7 @@ def canon(obj) -> str:
 def source_fingerprint() -> str:
     h = hashlib.sha1(sys.version.encode())
     for top in ("passlib", "libpass"):
-        for root, dirs, files in os.walk(os.path.join("/repo", top)):
+        for root, dirs, files in os.walk(os.path.join(REPO, top)):
             dirs[:] = sorted(d for d in dirs if d != "__pycache__")
             for f in sorted(files):
                 if f.endswith(".py"):
@@ -200,7 +200,7 @@ def raised_by_implementation(e: BaseException) -> bool:
         files.append(tb.tb_frame.f_code.co_filename)
         tb = tb.tb_next
     last_harness = max((i for i, f in enumerate(files) if f.startswith(VERIF)), default=-1)
-    return any(f.startswith("/repo/") for f in files[last_harness + 1:])
+    return any(f.startswith(REPO.rstrip("/") + "/") for f in files[last_harness + 1:])
 
 
 def errname_tb(e: BaseException) -> str:
